@@ -17,9 +17,17 @@ package redisemu
 //@ modifies clientState.multiInProgress
 
 //@ func isAbortedExecUnlocked
-//@ trusted walks the watch table and compares versions (C10); reads only
-//@ pure
+//@ prop C10 C14 C09
+//@ safetyprop C13
 //@ requires cs != nil
+//@ requires free dbs: forall w watchKey :: haskey(cs.watches, w) ==> w.ds != nil && w.ds.data != nil
+//@ modifies storeKey.lastAccess ghost.lookupAbsent ghost.now ghost.gWatchDs ghost.gWatchKey ghost.gWatchId
+//@ ghostbefore "if " : gWatchDs = watch.ds
+//@ ghostbefore "if " : gWatchKey = watch.key
+//@ ghostbefore "if " : gWatchId = id
+// every entry examined is an entry of the connection's watch table with the version recorded for it
+//@ assertbefore "if " [C10] table.entry: haskey(cs.watches, watch) && cs.watches[watch] == id
+//@ loop 1 invariant held
 // C10: the watch check and the replay of the queue are one atomic step: both run under the exclusive lock
 //@ requires [C09,C10] exclusive: held
 
@@ -144,7 +152,7 @@ package redisemu
 //@ requires ctx != nil && cs != nil
 //@ requires free registered: cs.client != nil
 //@ requires [C08,C16] owner: held
-//@ modifies alloc Builder storeKey.lastAccess ghost.mutexHeld ghost.gClosingSeenAfterCapture ghost.gLineBroken ghost.lookupAbsent ghost.now
+//@ modifies alloc Builder storeKey.lastAccess ghost.mutexHeld ghost.gClosingSeenAfterCapture ghost.gLineBroken ghost.lookupAbsent ghost.now ghost.gWatchDs ghost.gWatchKey ghost.gWatchId
 //@ assertbefore "name, selectedDb, user, respVersion := cs.name" [C16] foreign.read.locked: mutexheld(cs.mu)
 //@ assertbefore "aborted := isAbortedExecUnlocked(cs)" [C16] foreign.watches.locked: mutexheld(cs.mu)
 
@@ -216,8 +224,14 @@ package redisemu
 //@ pure
 
 //@ func clientState.isBlocked
-//@ trusted atomic read of the capture word
-//@ pure
+//@ prop C12
+//@ safetyprop none
+//@ requires cs != nil
+//@ modifies cs->blocked
+//@ loop 1 invariant [C12] loop: cs.blocked == old(cs.blocked)
+//@ ensures [C12] blocked.iff: result == (old(cs.blocked) == CS_CAPTURED)
+//@ ensures [C12] word.restored: cs.blocked == old(cs.blocked)
+//@ assertbefore "atomic.S" [C12,C13,C20] word.owner.only: locked != CS_CHECKING
 
 //@ func clientState.isMultiInProgress
 //@ trusted reads one flag under cs.mu
